@@ -123,6 +123,11 @@ def concretise_c05(st, seed, iid):
         b = A @ xs - r * 1e-4
         # optimality at xs: A'r = (multiplier pattern) is preserved by scaling r; f* = |r|^2
         fstar = float((r * 1e-4) @ (r * 1e-4))
+    elif st.get("special") == "huge_sensitivities":
+        big = float(rng.choice([1e7, 1e8]))
+        A = A * big
+        b = A @ xs - r * big
+        fstar = float((r * big) @ (r * big))
     inst = dict(id=iid, seed=seed, n=n, m=m, prob="explicit", explicit=dict(A=A.tolist(), b=b.tolist(), x0=x0.tolist(), lo=None if lo is None else lo.tolist(),
                                                                             hi=None if hi is None else hi.tolist()),
                 npt=npt, fstar=fstar, opttol=1e-6, pattern=st, timeout=120.0, maxfun=min(100 * (n + 1), 1000), rhoend=1e-8)
